@@ -64,11 +64,21 @@ def check_journal_contract(fx, rep):
             elif txt.startswith('enabled(') and 'CANCUN' in txt:
                 a['cancun'] = tv
         kinds = []
+        after = []           # journaling that happens after the entry the wrapper will read
         for e in r.events:
             if e[0].endswith('Vec::push') and len(e[1]) > 1 and e[1][1][0] == 'agg' and e[1][1][1].endswith('JournalEntry'):
                 v = e[1][1][2]
                 if v in ('AccountDestroyed', 'BalanceTransfer'):
                     kinds.append((v, c15.render_deep(e[1][1])))
+                elif kinds:
+                    after.append(v)
+            elif kinds and e[0].endswith(('JournaledState::touch_account', 'JournaledState::touch', 'JournaledState::load_account',
+                                          'JournaledState::transfer', 'JournaledState::load_code')):
+                after.append(e[0].split('::')[-1])
+        if after:
+            rep.violation('R3-journal-contract', 'selfdestruct:entry-is-last', 'JournaledState::selfdestruct journals %s after the %s entry: the inspector wrapper reads the LAST entry of the journal and would report 0 instead of the balance that left' % (
+                sorted(set(after)), kinds[0][0]), f.where())
+            return
         for other in ([a['other']] if 'other' in a else [True, False]):
             for created in ([a['created']] if 'created' in a else [True, False]):
                 for cancun in ([a['cancun']] if 'cancun' in a else [True, False]):
